@@ -1155,8 +1155,11 @@ class Parser:
             return self._parse_function_expression()
 
         # Regex literal - when we see / in primary expression context, it's a regex
-        if self._check(TokenType.SLASH):
-            regex_token = self.lexer.read_regex_literal()
+        if self._check(TokenType.SLASH, TokenType.SLASH_ASSIGN):
+            # Where an operand is expected, /= is the start of a pattern too
+            regex_token = self.lexer.read_regex_literal(
+                2 if self._check(TokenType.SLASH_ASSIGN) else 1
+            )
             self.current = self.lexer.next_token()  # Move past the regex
             pattern, flags = regex_token.value
             return RegexLiteral(pattern, flags)
